@@ -85,6 +85,14 @@ def build(preset, opts, counter, plan):
     return md
 
 
+def nest_probes(md):
+    mn = md.options.get("maxNesting", 100)
+    out = []
+    for k in sorted({max(1, mn - 3), max(1, mn - 2), max(1, mn - 1), mn, mn + 1}):
+        out.append("[" * k + "a" + "]" * k + "(u)\n\n" + "> " * min(k, 60) + "b\n")
+    return out
+
+
 def snapshot(md):
     return (
         {k: list(v) for k, v in md.get_active_rules().items()},
@@ -112,8 +120,11 @@ def fault_run(ctx: Ctx, preset, opts, doc, quick):
         md = build(preset, opts, c2, plan)
         # warm up so that caches exist, with the plan disabled
         plan[0] = None
-        probes_before = [md.render(p) for p in PROBES]
+        allp = PROBES + (nest_probes(md) if (md.options.get("maxNesting", 100) <= 30 or ctx.rng.random() < 0.08) else [])
+        probes_before = [md.render(p) for p in allp]
         snap = snapshot(md)
+        from .statesnap import deep_state, diff
+        deep0 = deep_state(md, fn_identity=True)
         c2.clear()
         plan[0] = slot
         raised = None
@@ -137,12 +148,26 @@ def fault_run(ctx: Ctx, preset, opts, doc, quick):
             elif snap2[3] != snap[3]:
                 what = "render rules changed by a failed call"
             else:
+                dd = diff(deep0, deep_state(md, fn_identity=True))
+                ctx.corr_compared += 1
+                if dd:
+                    # look for an input on which the leftover state shows: nesting probes against an untouched twin
+                    twin = build(preset, opts, {}, None)
+                    for p_ in nest_probes(md):
+                        try:
+                            if md.render(p_) != twin.render(p_):
+                                what = "subsequent renders differ after a failed call (nesting probe vs an untouched identically built instance)"
+                                break
+                        except BaseException:  # noqa: BLE001
+                            pass
+                    ctx.mismatch("a failed call left state behind on the instance (the model's instance is unchanged by a failed call)",
+                                 {"preset": preset, "input": doc, "slot": list(slot), "i": i, "exc": exc.__name__, "differences": dd})
                 try:
-                    after = [md.render(p) for p in PROBES]
+                    after = [md.render(p) for p in allp]
                 except BaseException as e:  # noqa: BLE001
                     after = ["EXC " + type(e).__name__]
                 if after != probes_before:
-                    what = "subsequent renders differ after a failed call"
+                    what = what or "subsequent renders differ after a failed call"
         if what:
             ctx.fail("instance-changed", what,
                      {"preset": preset, "options": {k: repr(v) for k, v in opts.items()}, "input": doc,
